@@ -210,6 +210,47 @@ def build(tier, work, builder):
     jobs.append(F.Job("c06_lexer_newlines", "h_c06_lexer_newlines", [nlobj], level="bounded", unwind=2,
                       functions=["lexer.l rules whose action calls tracker.newline (actions on every matching text of <= 5 characters: %d cases)" % cases],
                       bound_note="matched texts of <= 5 characters over {CR, LF, backslash, blank, tab, x}"))
+    # ---- part E: the sibling index in an XPath step (Path::str / count in xmlreader.cpp)
+    xsrc = X.Source("src/xmlreader.cpp")
+    te = X.braced(xsrc, "enum class tag_t", r"^enum class tag_t \{")
+    write(work, "xr_tag_enum.inc", te.text + "\n")
+    ps = X.function(xsrc, "Path::str", r"^(\[\[nodiscard\]\] )?std::string Path::str\(tag_t tag\) const")
+    body = re.sub(r"/\*.*?\*/|//[^\n]*", "", ps.text, flags=re.S)
+    steps = re.findall(r"case tag_t::(\w+):\s*str << \"(/\w+)(\[?)\"([^;]*);\s*break;", body)
+    if len(steps) < 20 or len(steps) != len(re.findall(r"\bcase tag_t::", body)):
+        raise X.ExtractionBroken("Path::str: the switch is no longer one `case tag_t::X: str << \"/x[\" << ... ; break;` per tag")
+    helper = None
+    struct_bad = []
+    for tg, text, br, rest in steps:
+        if not br:
+            continue
+        m = re.fullmatch(r"\s*<< (\w+)\(level, tag_t::(\w+)\) << \"\]\"", rest)
+        if not m:
+            raise X.ExtractionBroken(f"Path::str: indexed step {text} does not have the form << f(level, tag_t::X) << \"]\"")
+        if helper not in (None, m.group(1)):
+            raise X.ExtractionBroken("Path::str: more than one index helper")
+        helper = m.group(1)
+        if m.group(2) != tg:
+            struct_bad.append(f"{text}[...] counts tag_t::{m.group(2)} siblings instead of tag_t::{tg}")
+    must_index = {"TEMPLATE", "LOCATION", "BRANCHPOINT", "TRANSITION", "LABEL", "NAIL", "LSC", "INSTANCE", "MESSAGE", "CONDITION", "UPDATE", "ANCHOR", "QUERY"}
+    for tg, text, br, rest in steps:
+        if tg in must_index and not br:
+            struct_bad.append(f"the step for the repeatable element {text} carries no sibling index")
+    if helper is None:
+        raise X.ExtractionBroken("Path::str: no indexed step")
+    hc = X.function(xsrc, "count (Path::str's sibling index)", r"^static (inline )?size_t %s\(const std::vector<tag_t>& level, tag_t tag\)" % re.escape(helper))
+    hc.sub("glue:helper name", r"\b%s\(const std::vector<tag_t>& level" % re.escape(helper), "count(const std::vector<tag_t>& level")
+    X.lower_inline_lambdas(hc)
+    hc.sub("L15:auto it = reverse search", r"\b(?:const )?auto (\w+) = (std::find(?:_if)?\(std::rbegin\()", r"std::verif_rit \1 = \2")
+    hc.sub("L15:auto it = forward search", r"\b(?:const )?auto (\w+) = (std::find(?:_if)?\((?:std::begin\(|\w+\.begin\())", r"tag_t* \1 = \2")
+    write(work, "path_count.inc", hc.text + "\n")
+    write(work, "path_struct.inc", "static void verif_path_struct(void)\n{\n" + "".join(
+        '    __CPROVER_assert(0, "c06.path.every-indexed-XPath-step-counts-the-siblings-with-its-own-tag: %s");\n' % b.replace('"', "'") for b in struct_bad) + "}\n")
+    slices += [ps, hc]
+    pobj = builder.cc(os.path.join(CDIR, "path06.cpp"), includes=[work], cpp=True)
+    jobs.append(F.Job("c06_path_count", "h_c06_path_count", [pobj], timeout=300, unwind=8,
+                      functions=["count(const std::vector<tag_t>&, tag_t) (xmlreader.cpp)", "Path::str (structure of the switch: each indexed step prints count(level, its own tag))"],
+                      bound_note="levels of <= 6 siblings over three tags (the helper is generic in the tag)"))
     # ---- part C: under which XPath the XML reader hands a text block to the grammar (the scripts of C04's kernel K1, with
     #      the c06.reader.* obligations switched on instead of the c04.* ones)
     from checks import C04
